@@ -3,6 +3,7 @@ package main
 // Block-level symbolic execution: control flow, loops cut at invariants, instructions.
 
 import (
+	"os"
 	"fmt"
 	"go/token"
 	"go/types"
@@ -48,9 +49,25 @@ func (x *Exec) loopsOf(f *ssa.Function) *loopInfo {
 		}
 	}
 	// order headers by source position of their first instruction with a position
-	sort.SliceStable(li.headers, func(i, j int) bool { return blockPos(li.headers[i]) < blockPos(li.headers[j]) })
+	hpos := map[*ssa.BasicBlock]token.Pos{}
+	for _, h := range li.headers {
+		hp := blockPos(h)
+		if int(hp) == h.Index {
+			// a header without positioned instructions (range loops): first position in the body
+			for bb := range li.body[h] {
+				if bp := blockPos(bb); int(bp) != bb.Index && (int(hp) == h.Index || bp < hp) {
+					hp = bp
+				}
+			}
+		}
+		hpos[h] = hp
+	}
+	sort.SliceStable(li.headers, func(i, j int) bool { return hpos[li.headers[i]] < hpos[li.headers[j]] })
 	for i, h := range li.headers {
 		li.ord[h] = i
+		if os.Getenv("XVC_LOOPS") != "" {
+			fmt.Fprintf(os.Stderr, "loop %d of %s: block %d (%s) at %s\n", i, x.p.Names[f], h.Index, h.Comment, x.p.Prog.Fset.Position(hpos[h]))
+		}
 	}
 	x.loops[f] = li
 	return li
@@ -60,6 +77,12 @@ func blockPos(b *ssa.BasicBlock) token.Pos {
 	// smallest position found in the loop header or its body start
 	best := token.Pos(1 << 30)
 	for _, in := range b.Instrs {
+		if _, phi := in.(*ssa.Phi); phi {
+			continue // a phi carries the position of the variable's declaration, not of the loop
+		}
+		if _, dbg := in.(*ssa.DebugRef); dbg {
+			continue
+		}
 		if p := in.Pos(); p.IsValid() && p < best {
 			best = p
 		}
@@ -93,6 +116,7 @@ func (x *Exec) execFunction(s *State, f *ssa.Function, args []Val, bindings []Va
 		return
 	}
 	fr.k = func(s2 *State, res []Val) {
+		s2.lastFrame = s2.frames[len(s2.frames)-1]
 		s2.frames = s2.frames[:len(s2.frames)-1]
 		k(s2, res)
 	}
@@ -291,7 +315,7 @@ func loopClauses(fc *FuncContract, kind string, ord int) []*Clause {
 		return nil
 	}
 	for _, c := range fc.Clauses {
-		if c.Kind == kind && c.Loop == ord {
+		if c.Kind == kind && (c.Loop == ord || c.Loop == -1) {
 			out = append(out, c)
 		}
 	}
